@@ -11,6 +11,7 @@ ENGINES = {
     "C04": ("props.c04", "run"),
     "C05": ("props.c05", "run"),
     "C16": ("props.c16", "run"),
+    "C17": ("props.c17", "run"),
     "C09": ("props.c09", "run"),
     "C08": ("props.c08", "run"),
     "C13": ("props.c13", "run"),
